@@ -146,10 +146,10 @@ def judge_run(rc, out, err):
     return None, "no verdict printed"
 
 
-def run(prop, tier, seed, with_miri=True):
+def run(prop, tier, seed, with_miri=True, only=None):
     t0 = time.time()
     res = dict(evaluations=0, distinct_nontrivial=0, violations=[], inconclusive=[], samples=[], extra={})
-    probes = [p for p in corpus.PROBES if p["prop"] == prop]
+    probes = [p for p in corpus.PROBES if p["prop"] == prop and (only is None or p["id"] == only)]
     if not probes:
         return res
     rlib, deps, rustc, err = cargo_rlib("stable")
